@@ -48,9 +48,19 @@ Theorem C04_reference_tree_respects_binding_powers : forall s t, ref_parse s = O
 Proof. exact ref_parse_sound. Qed.
 Print Assumptions C04_reference_tree_respects_binding_powers.
 
-(** ... for any table (the code's included), on the parser model with the non-sentence branches closed. *)
-Theorem C04_tree_respects_binding_powers_any_table : forall L STOP fuel tokens t,
-  parse_tokens L STOP true fuel tokens = Ok t ->
-  exists c rest, map snd tokens = flat c ++ rest /\ erase c = t /\ wf c /\ prec L 0 c /\ hd TEof rest = TEof.
+(** ... for any table, for the reference parser ([strict = true], trees of the
+    grammar) and for the code's parser ([strict = false], trees of the extended
+    language of C03) alike. *)
+Theorem C04_tree_respects_binding_powers_any_table : forall L STOP strict fuel tokens t,
+  parse_tokens L STOP strict fuel tokens = Ok t ->
+  exists c rest, map snd tokens = flat c ++ rest /\ erase c = t /\ wfb (negb strict) c /\ prec L 0 c /\ hd TEof rest = TEof.
 Proof. exact ref_parser_sound. Qed.
 Print Assumptions C04_tree_respects_binding_powers_any_table.
+
+(** In particular the code's own trees: every operand of the tree [compile]
+    returns has only strictly tighter operators at its top level, over the table
+    read from lexer.rs on this run. *)
+Theorem C04_code_tree_respects_binding_powers : forall s t, parse s = Ok t ->
+  exists tokens c, tokenize s = Ok tokens /\ map snd tokens = flat c ++ [TEof] /\ erase c = t /\ wfb true c /\ prec lbp 0 c.
+Proof. exact code_parse_sound. Qed.
+Print Assumptions C04_code_tree_respects_binding_powers.
